@@ -3,6 +3,7 @@
 package splugin
 
 import (
+	"time"
 	"context"
 	"fmt"
 	"io"
@@ -23,6 +24,8 @@ type DeployScript struct {
 	Schema   string `json:"schema,omitempty"`    // schema variant served by this deployment ("" = script default)
 	CloseErr string `json:"close_err,omitempty"` // Close() returns this error (after closing)
 	WriteErr bool   `json:"write_err,omitempty"` // engine-side writes fail after hello
+	// CloseDelayMs makes Close() take this long (a container that is slow to stop): the connection counts as open until then.
+	CloseDelayMs int `json:"close_delay_ms,omitempty"`
 }
 
 // ExecScript says how a step execution behaves.
@@ -137,7 +140,7 @@ func (c *connector) Deploy(ctx context.Context, src string) (deployer.Plugin, er
 	stdinR, stdinW := io.Pipe()   // engine writes -> plugin reads
 	stdoutR, stdoutW := io.Pipe() // plugin writes -> engine reads
 	id := connCounter.Add(1)
-	p := &conn{id: id, src: src, r: stdoutR, w: stdinW, done: make(chan struct{}), closeErr: ds.CloseErr, writeErr: ds.WriteErr}
+	p := &conn{id: id, src: src, r: stdoutR, w: stdinW, done: make(chan struct{}), closeErr: ds.CloseErr, writeErr: ds.WriteErr, closeDelay: ds.CloseDelayMs}
 	OpenConns.Add(1)
 	Log("deploy-ok", src, id, "", map[string]any{"nth": int64(nth)})
 	go serve(p, sc, ds, stdinR, stdoutW)
@@ -154,6 +157,7 @@ type conn struct {
 	done     chan struct{}
 	closeErr string
 	writeErr bool
+	closeDelay int
 	helloed  atomic.Bool
 }
 
@@ -175,6 +179,10 @@ func (p *conn) Close() error {
 	first := false
 	p.once.Do(func() {
 		first = true
+		if p.closeDelay > 0 {
+			Log("conn-closing", p.src, p.id, "", nil)
+			time.Sleep(time.Duration(p.closeDelay) * time.Millisecond)
+		}
 		Log("conn-close", p.src, p.id, "", nil)
 		OpenConns.Add(-1)
 		_ = p.r.Close()
